@@ -70,6 +70,18 @@ def apply_prestate(w, opts, world, items):
             link = os.path.join(out, name)
             if not os.path.lexists(link):
                 os.symlink(os.path.relpath(target, out), link)
+        elif k == "hardlink_stale":
+            # a report name that is a second hard link of a file kept outside the output directory (an archived copy made with ln)
+            os.makedirs(out, exist_ok=True)
+            archive = os.path.join(w.work, "archive")
+            os.makedirs(archive, exist_ok=True)
+            name = "%s%s_%s.ods" % (prefix, token, reports[i % 3])
+            target = os.path.join(archive, "kept_" + name)
+            link = os.path.join(out, name)
+            if not os.path.lexists(link) and not os.path.lexists(target):
+                with open(target, "wb") as fh:
+                    fh.write(b"PK\x03\x04 archived report (hard link) %d" % i)
+                os.link(target, link)
         elif k in ("stale_report", "readonly_stale", "bak"):
             os.makedirs(out, exist_ok=True)
             name = "%s%s_%s.ods" % (prefix, token, reports[i % 3])
@@ -244,3 +256,49 @@ def host_perturbations(host):
     if host.get("user") or host.get("hostname") or host.get("columns") or host.get("umask") is not None:
         kinds.append("identity")
     return kinds
+
+
+def edit_reports(out_dir, seed, share=0.35, exclude=()):
+    """What a user does to reports between two runs: open them in a spreadsheet program and type numbers into cells. Every ODS file in
+    out_dir is re-packed with a share of its text cells turned into numeric cells. Returns the number of cells changed."""
+    import io  # pylint: disable=import-outside-toplevel
+    import random  # pylint: disable=import-outside-toplevel
+    import zipfile  # pylint: disable=import-outside-toplevel
+
+    rng = random.Random(seed)
+    cell = re.compile(r'office:value-type="string"([^>]*)><text:p>([^<]{1,60})</text:p>')
+    changed = 0
+    if not os.path.isdir(out_dir):
+        return 0
+    for name in sorted(os.listdir(out_dir)):
+        path = os.path.join(out_dir, name)
+        if not name.endswith(".ods") or os.path.islink(path) or not os.path.isfile(path) or os.path.realpath(path) in exclude:
+            continue  # never the input spreadsheets laid out by the harness (-o may be their directory)
+        try:
+            with zipfile.ZipFile(path) as zin:
+                items = [(i, zin.read(i.filename)) for i in zin.infolist()]
+        except (zipfile.BadZipFile, OSError):
+            continue
+        n = [0]
+
+        def sub(m):
+            if rng.random() >= share:
+                return m.group(0)
+            n[0] += 1
+            v = rng.choice(["43210.5", "7", "0.125", "1999.99"])
+            return 'office:value-type="float" office:value="%s"%s><text:p>%s</text:p>' % (v, m.group(1), v)
+
+        buf = io.BytesIO()
+        with zipfile.ZipFile(buf, "w") as zout:
+            for item, data in items:
+                if item.filename == "content.xml":
+                    data = cell.sub(sub, data.decode("utf-8")).encode("utf-8")
+                zout.writestr(item, data)
+        if n[0]:
+            try:
+                with open(path, "wb") as fh:
+                    fh.write(buf.getvalue())
+                changed += n[0]
+            except OSError:
+                pass
+    return changed
